@@ -1,0 +1,50 @@
+//go:build verif
+
+package p2p
+
+import (
+	"crypto/ecdsa"
+	"io"
+	"net"
+
+	"gitlab.com/aquachain/aquachain/p2p/discover"
+)
+
+// Exported wrappers around the unexported RLPx transport, for the
+// verification harness only (build tag verif).
+
+// VerifRLPX is the real rlpx transport over a caller-supplied connection.
+type VerifRLPX struct{ t *rlpx }
+
+// VerifNewRLPX wraps fd in the RLPx transport used for real connections.
+func VerifNewRLPX(fd net.Conn) *VerifRLPX { return &VerifRLPX{t: newRLPX(fd).(*rlpx)} }
+
+// EncHandshake runs the encryption handshake (initiator when dial != nil).
+func (v *VerifRLPX) EncHandshake(prv *ecdsa.PrivateKey, dial *discover.Node) (discover.NodeID, error) {
+	return v.t.doEncHandshake(prv, dial)
+}
+
+// SetSnappy switches message compression on or off (after the handshake).
+func (v *VerifRLPX) SetSnappy(on bool) { v.t.rw.snappy = on }
+
+func (v *VerifRLPX) ReadMsg() (Msg, error)  { return v.t.ReadMsg() }
+func (v *VerifRLPX) WriteMsg(msg Msg) error { return v.t.WriteMsg(msg) }
+func (v *VerifRLPX) Close()                 { v.t.fd.Close() }
+
+// VerifSecrets is the comparable part of the handshake result.
+type VerifSecrets struct {
+	RemoteID discover.NodeID
+	AES, MAC []byte
+}
+
+// VerifInitiatorEncHandshake runs the initiator side on conn.
+func VerifInitiatorEncHandshake(conn io.ReadWriter, prv *ecdsa.PrivateKey, remoteID discover.NodeID) (VerifSecrets, error) {
+	s, err := initiatorEncHandshake(conn, prv, remoteID)
+	return VerifSecrets{RemoteID: s.RemoteID, AES: s.AES, MAC: s.MAC}, err
+}
+
+// VerifReceiverEncHandshake runs the receiver side on conn.
+func VerifReceiverEncHandshake(conn io.ReadWriter, prv *ecdsa.PrivateKey) (VerifSecrets, error) {
+	s, err := receiverEncHandshake(conn, prv)
+	return VerifSecrets{RemoteID: s.RemoteID, AES: s.AES, MAC: s.MAC}, err
+}
